@@ -136,6 +136,13 @@ func vhView(maxmembers, maxlen int) *ClusterView {
 	n := vrtChoose(maxmembers + 1)
 	for i := 0; i < n; i++ {
 		id := vhIDs[i]
+		if i == 0 && vrtChoose(2) == 1 {
+			// the map key and the ID inside the state are two fields of the value:
+			// they need not be equal (alias key, zero state)
+			v.Members[id] = vhNodeState("other-"+id, maxlen)
+			vrtReach("member-key-differs-from-state-id")
+			continue
+		}
 		v.Members[id] = vhNodeState(id, maxlen)
 	}
 	return v
